@@ -1,7 +1,489 @@
 package vc
 
-// leafReplay: turn a solver model into an in-package Go test that calls the
-// real function with the model's inputs (implemented in replaygen.go).
-func (e *Engine) leafReplay(v *VC, o *Obl) (string, bool) {
-	return "replay: no adapter for this function yet\n", false
+// Leaf replay: turn a solver model into an in-package Go test that calls the
+// real function with the model's inputs, observes a panic or dumps the
+// results, and (for postconditions) evaluates the failed clause on the
+// concrete values with the contract interpreter (ceval.go).
+
+import (
+	"context"
+	"encoding/json"
+	"fmt"
+	"go/types"
+	"os"
+	"os/exec"
+	"path/filepath"
+	"regexp"
+	"strings"
+	"time"
+
+	"golang.org/x/tools/go/ssa"
+)
+
+const replayMaxLen = 40
+
+type mvTerm struct {
+	key  string // e.g. "src.len", "src[3]"
+	term string
 }
+
+// modelTerms lists the SMT terms whose values describe the inputs.
+func (e *Engine) modelTerms(v *VC, f *frame, name, term string, ty types.Type, out *[]mvTerm, ok *bool) {
+	switch u := ty.Underlying().(type) {
+	case *types.Basic:
+		switch {
+		case u.Kind() == types.String:
+			*out = append(*out, mvTerm{name + ".len", "(slen " + term + ")"})
+			for i := 0; i < replayMaxLen; i++ {
+				*out = append(*out, mvTerm{fmt.Sprintf("%s[%d]", name, i), fmt.Sprintf("(sbyte %s %d)", term, i)})
+			}
+		case u.Info()&(types.IsInteger|types.IsBoolean) != 0:
+			*out = append(*out, mvTerm{name, term})
+		default:
+			*ok = false
+		}
+	case *types.Slice:
+		es := v.sr.sortOf(u.Elem())
+		if !isBV(es) && es != "Int" {
+			*ok = false
+			return
+		}
+		mem := q(compMem(es) + "@e0")
+		if !v.declSeen[mem] {
+			v.declare(compMem(es)+"@e0", arr2(es))
+		}
+		*out = append(*out, mvTerm{name + ".len", "(s_len " + term + ")"}, mvTerm{name + ".cap", "(s_cap " + term + ")"}, mvTerm{name + ".nil", "(= (s_base " + term + ") 0)"})
+		for i := 0; i < replayMaxLen; i++ {
+			*out = append(*out, mvTerm{fmt.Sprintf("%s[%d]", name, i), fmt.Sprintf("(select (select %s (s_base %s)) (+ (s_off %s) %d))", mem, term, term, i)})
+		}
+	case *types.Struct:
+		si := v.sr.structSort(ty)
+		for i := 0; i < u.NumFields(); i++ {
+			e.modelTerms(v, f, name+"."+u.Field(i).Name(), "("+si.fields[i]+" "+term+")", u.Field(i).Type(), out, ok)
+		}
+	default:
+		*ok = false
+	}
+}
+
+var valRe = regexp.MustCompile(`^\(\s*(.*)\s+(#x[0-9a-fA-F]+|#b[01]+|\(- [0-9]+\)|[0-9]+|true|false)\)$`)
+
+func parseSMTInt(s string) (int64, bool) {
+	s = strings.TrimSpace(s)
+	switch {
+	case strings.HasPrefix(s, "#x"):
+		var n uint64
+		fmt.Sscanf(s[2:], "%x", &n)
+		return int64(n), true
+	case strings.HasPrefix(s, "#b"):
+		var n int64
+		for _, c := range s[2:] {
+			n = n*2 + int64(c-'0')
+		}
+		return n, true
+	case s == "true":
+		return 1, true
+	case s == "false":
+		return 0, true
+	}
+	return parseIntLit(s)
+}
+
+// solveForValues re-solves the failing obligation with size bounds and
+// returns the values of the input terms.
+func (e *Engine) solveForValues(v *VC, o *Obl, terms []mvTerm, bound bool) (map[string]int64, string) {
+	var b strings.Builder
+	b.WriteString(v.smtBody())
+	b.WriteString(oblQuery(o) + "\n")
+	if bound {
+		for _, t := range terms {
+			if strings.HasSuffix(t.key, ".len") || strings.HasSuffix(t.key, ".cap") {
+				fmt.Fprintf(&b, "(assert (<= %s %d))\n", t.term, replayMaxLen-8)
+			} else if !strings.Contains(t.key, "[") && !strings.HasSuffix(t.key, ".nil") {
+				// scalar
+				if strings.HasPrefix(t.term, "|") {
+					fmt.Fprintf(&b, "(assert (=> true true))\n")
+				}
+			}
+		}
+	}
+	b.WriteString("(check-sat)\n(get-value (")
+	for _, t := range terms {
+		b.WriteString(t.term + " ")
+	}
+	b.WriteString("))\n")
+	dir, _ := os.MkdirTemp("", "gvc-replay-")
+	defer os.RemoveAll(dir)
+	file := filepath.Join(dir, "model.smt2")
+	os.WriteFile(file, []byte(b.String()), 0o644)
+	for _, sd := range []solverDef{solvers[0], solvers[1]} {
+		out, _ := runSolver(context.Background(), sd, 20000, file, 30000)
+		if firstAnswer(out) != "sat" {
+			continue
+		}
+		// parse "((term value)\n (term value) ...)": values come in order
+		vals := map[string]int64{}
+		rest := out[strings.Index(out, "sat")+3:]
+		toks := splitValuePairs(rest)
+		if len(toks) != len(terms) {
+			continue
+		}
+		okAll := true
+		for i, t := range terms {
+			n, ok := parseSMTInt(toks[i])
+			if !ok {
+				okAll = false
+				break
+			}
+			vals[t.key] = n
+		}
+		if okAll {
+			return vals, sd.name
+		}
+	}
+	return nil, ""
+}
+
+// splitValuePairs extracts the value part of each (term value) pair of a
+// get-value answer, in order.
+func splitValuePairs(s string) []string {
+	s = strings.TrimSpace(s)
+	// strip outer parens
+	i := strings.Index(s, "(")
+	if i < 0 {
+		return nil
+	}
+	s = s[i+1:]
+	var out []string
+	depth := 0
+	start := -1
+	inq := false
+	for p := 0; p < len(s); p++ {
+		c := s[p]
+		if c == '|' {
+			inq = !inq
+			continue
+		}
+		if inq {
+			continue
+		}
+		if c == '(' {
+			if depth == 0 {
+				start = p
+			}
+			depth++
+		} else if c == ')' {
+			depth--
+			if depth == 0 && start >= 0 {
+				pair := s[start+1 : p]
+				out = append(out, lastSexp(pair))
+				start = -1
+			}
+			if depth < 0 {
+				break
+			}
+		}
+	}
+	return out
+}
+
+// lastSexp returns the last s-expression (or atom) of a string.
+func lastSexp(s string) string {
+	s = strings.TrimSpace(s)
+	if strings.HasSuffix(s, ")") {
+		d := 0
+		for p := len(s) - 1; p >= 0; p-- {
+			if s[p] == ')' {
+				d++
+			} else if s[p] == '(' {
+				d--
+				if d == 0 {
+					return s[p:]
+				}
+			}
+		}
+	}
+	if i := strings.LastIndexAny(s, " \t\n"); i >= 0 {
+		return s[i+1:]
+	}
+	return s
+}
+
+// goValue renders a model value of the given type as a Go expression.
+func goValue(name string, ty types.Type, vals map[string]int64, qual types.Qualifier, ok *bool) string {
+	switch u := ty.Underlying().(type) {
+	case *types.Basic:
+		switch {
+		case u.Kind() == types.String:
+			n := vals[name+".len"]
+			if n > replayMaxLen {
+				*ok = false
+				return `""`
+			}
+			bs := make([]byte, n)
+			for i := range bs {
+				bs[i] = byte(vals[fmt.Sprintf("%s[%d]", name, i)])
+			}
+			return fmt.Sprintf("%s(%q)", types.TypeString(ty, qual), string(bs))
+		case u.Info()&types.IsBoolean != 0:
+			if vals[name] != 0 {
+				return "true"
+			}
+			return "false"
+		default:
+			return fmt.Sprintf("%s(%d)", types.TypeString(ty, qual), vals[name])
+		}
+	case *types.Slice:
+		n, c := vals[name+".len"], vals[name+".cap"]
+		if n > replayMaxLen || c > 1<<16 {
+			*ok = false
+			return "nil"
+		}
+		if vals[name+".nil"] != 0 && n == 0 {
+			return fmt.Sprintf("%s(nil)", types.TypeString(ty, qual))
+		}
+		var el []string
+		for i := int64(0); i < n; i++ {
+			el = append(el, fmt.Sprint(vals[fmt.Sprintf("%s[%d]", name, i)]))
+		}
+		return fmt.Sprintf("append(make(%s, 0, %d), %s{%s}...)", types.TypeString(ty, qual), c, types.TypeString(ty, qual), strings.Join(el, ", "))
+	case *types.Struct:
+		var fs []string
+		for i := 0; i < u.NumFields(); i++ {
+			fs = append(fs, u.Field(i).Name()+": "+goValue(name+"."+u.Field(i).Name(), u.Field(i).Type(), vals, qual, ok))
+		}
+		return types.TypeString(ty, qual) + "{" + strings.Join(fs, ", ") + "}"
+	}
+	*ok = false
+	return "nil"
+}
+
+// leafReplay implements the replay for functions whose parameters are
+// scalars, strings, byte slices and structs of those.
+func (e *Engine) leafReplay(v *VC, o *Obl) (string, bool) {
+	fn := v.fn
+	if fn == nil || fn.Pkg == nil {
+		return "replay: not a function obligation\n", false
+	}
+	if strings.Contains(o.Name, "/in:") {
+		// obligations inside inlined callees replay through the caller as well
+	}
+	f := &frame{vc: v}
+	var terms []mvTerm
+	ok := true
+	for i, p := range fn.Params {
+		if i >= len(v.inputs) {
+			return "replay: inputs not recorded\n", false
+		}
+		e.modelTerms(v, f, p.Name(), v.inputs[i], p.Type(), &terms, &ok)
+	}
+	if !ok {
+		return "replay: parameter types are outside the leaf adapter (pointers, interfaces, maps); no replay adapter for this function\n", false
+	}
+	vals, solver := e.solveForValues(v, o, terms, true)
+	if vals == nil {
+		vals, solver = e.solveForValues(v, o, terms, false)
+	}
+	if vals == nil {
+		return "replay: could not obtain a bounded model for the inputs\n", false
+	}
+	pkg := fn.Pkg.Pkg
+	qual := func(p *types.Package) string {
+		if p == pkg {
+			return ""
+		}
+		return p.Name()
+	}
+	var b strings.Builder
+	imports := map[string]bool{"testing": true, "fmt": true, "encoding/json": true, "os": true}
+	fmt.Fprintf(&b, "func TestGvcReplay(t *testing.T) {\n")
+	var argNames []string
+	gok := true
+	for _, p := range fn.Params {
+		gv := goValue(p.Name(), p.Type(), vals, qual, &gok)
+		fmt.Fprintf(&b, "\tvar in_%s %s = %s\n", p.Name(), types.TypeString(p.Type(), qual), gv)
+		argNames = append(argNames, "in_"+p.Name())
+		collectImports(p.Type(), pkg, imports)
+	}
+	if !gok {
+		return "replay: model values too large to materialise\n", false
+	}
+	// snapshot inputs (for old())
+	fmt.Fprintf(&b, "\tdump := map[string]interface{}{}\n")
+	for _, p := range fn.Params {
+		fmt.Fprintf(&b, "\tdump[\"old.%s\"] = gvcDump(in_%s)\n", p.Name(), p.Name())
+	}
+	fmt.Fprintf(&b, "\tdefer func() {\n\t\tif r := recover(); r != nil {\n\t\t\tdump[\"panic\"] = fmt.Sprint(r)\n\t\t}\n\t\tout, _ := json.Marshal(dump)\n\t\tos.Stdout.WriteString(\"GVCDUMP \" + string(out) + \"\\n\")\n\t}()\n")
+	call := ""
+	sig := fn.Signature
+	if sig.Recv() != nil {
+		call = fmt.Sprintf("in_%s.%s(%s)", fn.Params[0].Name(), fn.Name(), strings.Join(argNames[1:], ", "))
+	} else {
+		call = fmt.Sprintf("%s(%s)", fn.Name(), strings.Join(argNames, ", "))
+	}
+	nres := sig.Results().Len()
+	if nres > 0 {
+		var rs []string
+		for i := 0; i < nres; i++ {
+			rs = append(rs, fmt.Sprintf("r%d", i))
+		}
+		fmt.Fprintf(&b, "\t%s := %s\n", strings.Join(rs, ", "), call)
+		for i := 0; i < nres; i++ {
+			fmt.Fprintf(&b, "\tdump[\"result%d\"] = gvcDump(r%d)\n", i, i)
+		}
+	} else {
+		fmt.Fprintf(&b, "\t%s\n", call)
+	}
+	for _, p := range fn.Params {
+		fmt.Fprintf(&b, "\tdump[\"%s\"] = gvcDump(in_%s)\n", p.Name(), p.Name())
+	}
+	fmt.Fprintf(&b, "}\n\n")
+	// error identities mentioned in the contract
+	var errVars []string
+	if fc := e.funcC[fn]; fc != nil {
+		errVars = errorVarsIn(fc)
+		for _, ev := range errVars {
+			if i := strings.Index(ev, "."); i >= 0 {
+				if p := e.byName[ev[:i]]; p != nil {
+					imports[p.Path()] = true
+				}
+			}
+		}
+	}
+	fmt.Fprintf(&b, "func gvcDump(v interface{}) interface{} {\n\tswitch x := v.(type) {\n\tcase []byte:\n\t\tl := make([]int, len(x))\n\t\tfor i, c := range x {\n\t\t\tl[i] = int(c)\n\t\t}\n\t\treturn map[string]interface{}{\"bytes\": l, \"cap\": cap(x), \"nil\": x == nil}\n\tcase error:\n")
+	for _, ev := range errVars {
+		fmt.Fprintf(&b, "\t\tif x == %s {\n\t\t\treturn map[string]interface{}{\"error\": %q}\n\t\t}\n", ev, ev)
+	}
+	fmt.Fprintf(&b, "\t\treturn map[string]interface{}{\"error\": \"other: \" + x.Error()}\n\tcase nil:\n\t\treturn nil\n\tcase fmt.Stringer:\n\t\treturn map[string]interface{}{\"string\": x.String(), \"repr\": fmt.Sprintf(\"%%#v\", v)}\n\t}\n\treturn v\n}\n")
+	var src strings.Builder
+	fmt.Fprintf(&src, "package %s\n\nimport (\n", pkg.Name())
+	for _, im := range sortedKeys(imports) {
+		fmt.Fprintf(&src, "\t%q\n", im)
+	}
+	fmt.Fprintf(&src, ")\n\n%s", b.String())
+
+	// run it through an overlay
+	dir, _ := os.MkdirTemp("", "gvc-replay-")
+	defer os.RemoveAll(dir)
+	testFile := filepath.Join(dir, "zz_gvc_replay_test.go")
+	os.WriteFile(testFile, []byte(src.String()), 0o644)
+	pkgDir := ""
+	for _, p := range e.Pkgs {
+		if p.Types == pkg && len(p.GoFiles) > 0 {
+			pkgDir = filepath.Dir(p.GoFiles[0])
+		}
+	}
+	if pkgDir == "" {
+		return "replay: package directory not found\n", false
+	}
+	ov := map[string]interface{}{"Replace": map[string]string{filepath.Join(pkgDir, "zz_gvc_replay_test.go"): testFile}}
+	ovData, _ := json.Marshal(ov)
+	ovFile := filepath.Join(dir, "overlay.json")
+	os.WriteFile(ovFile, ovData, 0o644)
+	ctx, cancel := context.WithTimeout(context.Background(), 120*time.Second)
+	defer cancel()
+	cmd := exec.CommandContext(ctx, "go", "test", "-overlay", ovFile, "-vet=off", "-count=1", "-v", "-timeout", "60s", "-run", "^TestGvcReplay$", ".")
+	cmd.Dir = pkgDir
+	cmd.Env = append(os.Environ(), "GOFLAGS=-mod=mod", "GOPROXY=off", "GOSUMDB=off", "GOTOOLCHAIN=local")
+	outB, _ := cmd.CombinedOutput()
+	out := string(outB)
+	var rep strings.Builder
+	fmt.Fprintf(&rep, "replay (leaf adapter, model from %s): real function called with the verifier's inputs\n", solver)
+	for _, p := range fn.Params {
+		ok2 := true
+		fmt.Fprintf(&rep, "  %s = %s\n", p.Name(), goValue(p.Name(), p.Type(), vals, qual, &ok2))
+	}
+	fmt.Fprintf(&rep, "command: cd %s && go test -overlay <overlay mapping zz_gvc_replay_test.go> -vet=off -count=1 -timeout 60s -run '^TestGvcReplay$' .\n", pkgDir)
+	fmt.Fprintf(&rep, "--- generated test ---\n%s--- output ---\n%s\n", src.String(), truncate(out, 4000))
+	// interpret
+	var dump map[string]interface{}
+	for _, l := range strings.Split(out, "\n") {
+		if strings.HasPrefix(l, "GVCDUMP ") {
+			json.Unmarshal([]byte(strings.TrimPrefix(l, "GVCDUMP ")), &dump)
+		}
+	}
+	if dump == nil {
+		rep.WriteString("NOT-REPRODUCED: the replay test produced no result dump\n")
+		return rep.String(), false
+	}
+	if p, ok := dump["panic"]; ok {
+		if o.Clause == nil || true {
+			fmt.Fprintf(&rep, "REPRODUCED: the real code panics: %v\n", p)
+			return rep.String(), true
+		}
+	}
+	if o.Clause == nil {
+		rep.WriteString("NOT-REPRODUCED: the predicted run-time failure did not happen on the real code\n")
+		return rep.String(), false
+	}
+	if o.Kind != "post" {
+		rep.WriteString("NOT-REPRODUCED: only postconditions and panics are evaluated by the leaf adapter\n")
+		return rep.String(), false
+	}
+	holds, err := e.evalClause(fn, o.Clause, dump)
+	if err != nil {
+		fmt.Fprintf(&rep, "NOT-REPRODUCED: clause could not be evaluated on concrete values: %v\n", err)
+		return rep.String(), false
+	}
+	if !holds {
+		fmt.Fprintf(&rep, "REPRODUCED: clause `%s` is false for the values returned by the real code\n", o.Clause.Text)
+		return rep.String(), true
+	}
+	rep.WriteString("NOT-REPRODUCED: the clause holds on the real code for the verifier's inputs (the model runs through a havocked loop/call)\n")
+	return rep.String(), false
+}
+
+func truncate(s string, n int) string {
+	if len(s) > n {
+		return s[:n] + "\n…(truncated)"
+	}
+	return s
+}
+
+func collectImports(t types.Type, self *types.Package, imports map[string]bool) {
+	switch u := t.(type) {
+	case *types.Named:
+		if p := u.Obj().Pkg(); p != nil && p != self {
+			imports[p.Path()] = true
+		}
+	case *types.Slice:
+		collectImports(u.Elem(), self, imports)
+	case *types.Pointer:
+		collectImports(u.Elem(), self, imports)
+	}
+}
+
+// errorVarsIn: qualified identifiers in a contract that look like error variables
+func errorVarsIn(fc *FuncC) []string {
+	seen := map[string]bool{}
+	var walk func(CE)
+	walk = func(e CE) {
+		switch n := e.(type) {
+		case *CSel:
+			if id, ok := n.X.(*CIdent); ok && (strings.HasPrefix(n.Sel, "Err") || n.Sel == "EOF") {
+				seen[id.Name+"."+n.Sel] = true
+			}
+			walk(n.X)
+		case *CBin:
+			walk(n.L)
+			walk(n.R)
+		case *CUn:
+			walk(n.X)
+		case *CCall:
+			for _, a := range n.Args {
+				walk(a)
+			}
+		case *CQuant:
+			walk(n.Body)
+		case *CIndex:
+			walk(n.X)
+			walk(n.I)
+		}
+	}
+	for _, c := range fc.Ensures {
+		walk(c.Expr)
+	}
+	return sortedKeys(seen)
+}
+
+var _ = ssa.Function{}
